@@ -249,7 +249,8 @@ class _Walker:
             if isinstance(st, ast.Expr):
                 if isinstance(st.value, (ast.Yield, ast.YieldFrom)):
                     y = st.value
-                    self.emit("yield", subst(y.value, env) if y.value is not None else None, conds, st, env, loops, effects)
+                    self.emit("yield" if isinstance(y, ast.Yield) else "yield_from", subst(y.value, env) if y.value is not None else None,
+                              conds, st, env, loops, effects)
                     continue
                 self._effect(st, env, effects)
                 continue
@@ -429,12 +430,14 @@ def simplify(e: ast.AST, facts: Dict[str, bool]) -> ast.AST:
 def consistent(o: Outcome, facts: Dict[str, bool]) -> bool:
     for c, pol in o.conds:
         v = atom_value(c, facts)
+        if v is None:
+            v = atom_value(simplify(c, facts), facts)
         if v is not None and v != pol:
             return False
     return True
 
 
-def select(outs: Sequence[Outcome], facts: Dict[str, bool], kinds: Sequence[str] = ("return", "raise", "yield", "fall")) -> List[Outcome]:
+def select(outs: Sequence[Outcome], facts: Dict[str, bool], kinds: Sequence[str] = ("return", "raise", "yield", "yield_from", "fall")) -> List[Outcome]:
     return [o for o in outs if o.kind in kinds and consistent(o, facts)]
 
 
@@ -545,7 +548,7 @@ def find(pattern: str, root: ast.AST, binds=None) -> List[Tuple[ast.AST, Dict[st
     return out
 
 
-def eval_under(outs: Sequence[Outcome], facts: Dict[str, bool], kinds: Sequence[str] = ("return", "raise", "yield", "fall")):
+def eval_under(outs: Sequence[Outcome], facts: Dict[str, bool], kinds: Sequence[str] = ("return", "raise", "yield", "yield_from", "fall")):
     """The distinct (kind, value text, effect texts) of the outcomes consistent with ``facts``, each partially evaluated
     under them.  A function whose behaviour is determined by the facts gives exactly one entry."""
     seen, res = set(), []
@@ -561,4 +564,16 @@ def eval_under(outs: Sequence[Outcome], facts: Dict[str, bool], kinds: Sequence[
         if key not in seen:
             seen.add(key)
             res.append((o.kind, v, effs))
+    return res
+
+
+def truth_cases(outs: Sequence[Outcome], atoms: Sequence[str], kinds: Sequence[str]):
+    """For every truth assignment of ``atoms`` (normalised positive atom texts): the sorted list of distinct
+    (kind, value text) of the outcomes consistent with it.  Returns {assignment tuple: [(kind, text), …]}."""
+    import itertools
+    res = {}
+    for vals in itertools.product([False, True], repeat=len(atoms)):
+        facts = dict(zip(atoms, vals))
+        got = sorted({(k, norm(v) if v is not None else None) for k, v, _ in eval_under(outs, facts, kinds)})
+        res[vals] = got
     return res
